@@ -56,7 +56,9 @@ CASES = [
     ({"kind": "ScheduleNTasksInTimeIntervals", "tasks": ["a", "b"], "n": 1, "intervals": [[0, 3]], "mode": "min"},
      P({"a": (True, 0, 2), "b": (True, 0, 3)}), T),
     ({"kind": "ScheduleNTasksInTimeIntervals", "tasks": ["a", "b"], "n": 1, "intervals": [[0, 3]], "mode": "max"},
-     P({"a": (True, 0, 2), "b": (True, 1, 4)}), T),
+     P({"a": (True, 0, 2), "b": (True, 1, 4)}), B),
+    ({"kind": "ScheduleNTasksInTimeIntervals", "tasks": ["a", "b"], "n": 1, "intervals": [[0, 3]], "mode": "max"},
+     P({"a": (True, 0, 2), "b": (True, 3, 6)}), T),
     ({"kind": "ResourceUnavailable", "resource": "w", "intervals": [[2, 4]]},
      P({"a": (True, 0, 2)}, {"w": [("a", 0, 2)]}), T),
     ({"kind": "ResourceUnavailable", "resource": "w", "intervals": [[2, 4]]},
